@@ -26,8 +26,8 @@ def work(args):
     signal.signal(signal.SIGALRM, h)
     for i in range(n):
         v = rng.choice(['1.0', '2.0', '3.0', '3.1', '3.1', '3.1'])
-        src = c03.funcall_source(rng, v) if mode == 'fun' else c03.format_source(rng) if mode == 'fmt' else c03.regex_source(rng) if mode == 'rx' else c03.opcall_source(rng, v)
-        if mode in ('fmt', 'rx'):
+        src = c03.funcall_source(rng, v) if mode == 'fun' else c03.format_source(rng) if mode == 'fmt' else c03.regex_source(rng) if mode == 'rx' else c03.datearith_source(rng) if mode == 'dt' else c03.opcall_source(rng, v)
+        if mode in ('fmt', 'rx', 'dt'):
             v = '3.1'
         p = P[v](namespaces={'p': 'http://example.com/ns'})
         signal.alarm(5)
